@@ -314,7 +314,16 @@ def xarray_reduce(
         # https://github.com/pydata/xarray/issues/8819
         kwargs = {"skipna": skipna} if skipna is not None else {}
         kwargs.update(finalize_kwargs)
-        result = getattr(ds_broad, func)(dim=dim_tuple, **kwargs)
+        # reduce before broadcasting: a variable lacking one of the reduced dimensions must not
+        # be reduced over broadcast copies of itself, and variables keep their dimension order.
+        # Variables without any of the reduced dimensions pass through unchanged.
+        unreduced = {k: v for k, v in ds.data_vars.items() if not any(d in v.dims for d in dim_tuple)}
+        result = getattr(ds.drop_vars(list(unreduced)), func)(dim=dim_tuple, **kwargs)
+        result = result.assign(unreduced)[list(ds.data_vars)]
+        for name in result.data_vars:
+            if not set(grouper_dims).issubset(set(result[name].dims)):
+                # xarray's groupby broadcasts such variables against the grouper when combining
+                result[name] = xr.broadcast(*by_da, result[name], exclude=exclude_dims)[-1].variable
         if isinstance(obj, xr.DataArray):
             return obj._from_temp_dataset(result)
         else:
